@@ -42,6 +42,9 @@ def build(sc, budgets=None):
         entry = ctl
     elif layout == "micro800":
         entry = ctl          # no backplane at all
+    elif layout == "cip":
+        entry = Module(world, w.get("identity"))      # a bare CIP device
+        entry.kind = "cipdev"
     elif layout == "clx":
         n = w.get("slots", 4)
         ch = world.add_chassis(n)
